@@ -1,6 +1,6 @@
 use crate::{
     gc::GC,
-    object::{Error, FromString, Object, Type},
+    object::{Error, FromString, Object, Type, MAX_INT, MIN_INT},
 };
 
 #[repr(u8)]
@@ -140,7 +140,16 @@ fn call_int(args: &[Object]) -> Result<Object, Error> {
                 0
             }
         }
-        Type::Float => unsafe { args[0].as_f64_unchecked() as isize },
+        Type::Float => {
+            let value = unsafe { args[0].as_f64_unchecked() };
+            // `as` saturates (and maps NaN to 0), so reject what does not fit before converting
+            if !(value > MIN_INT as f64 - 1.0 && value < MAX_INT as f64 + 1.0) {
+                return Err(Error::ArgumentError(format!(
+                    "kan {value} niet converteren naar een integer"
+                )));
+            }
+            value as isize
+        }
         Type::Int => return Ok(args[0]),
         Type::String => unsafe {
             match args[0].as_str_unchecked().trim().parse() {
@@ -161,7 +170,11 @@ fn call_int(args: &[Object]) -> Result<Object, Error> {
         }
     };
 
-    Ok(Object::int(result))
+    Object::try_int(result).map_err(|_| {
+        Error::ArgumentError(format!(
+            "kan {result} niet converteren naar een integer"
+        ))
+    })
 }
 
 /// Casts the given object to an object of type float
